@@ -25,7 +25,7 @@ func init() {
 			"without reading a field cannot keep the highest nonce / add the delta / let later updates win / append the new transfers). Does NOT decide: the merge laws as equations, " +
 			"exhaustive byte-pair round trips as executions, the classification of concrete addresses.",
 		Trusted: []string{"A-len"},
-		Rules:   []func(*Ctx){c20r1, c20r2, c20r3, c20r4, c20r5, c20r6},
+		Rules:   []func(*Ctx){c20r1, c20r2, c20r3, c20r4, c20r5, c20r6, c20r7},
 	})
 }
 
